@@ -741,8 +741,8 @@ def compare_topologies(base, var, variant, argv):
     if len(mb) != len(mv):
         return [('molecule-count', {'baseline': len(mb), 'variant': len(mv)})]
     for j, (a, b) in enumerate(zip(mb, mv)):
-        if a['name'] != b['name']:
-            diffs.append(('moltype-name', {'molecule': j, 'baseline': a['name'], 'variant': b['name']}))
+        # molecule type *names* are labels: whether two near-identical molecules share one depends on floats that
+        # differ in the last bits between presentations; the content of each molecule's topology is what is compared
         if len(a['atoms']) != len(b['atoms']):
             diffs.append(('atoms', {'molecule': j, 'baseline': len(a['atoms']), 'variant': len(b['atoms'])}))
             continue
@@ -760,10 +760,12 @@ def compare_topologies(base, var, variant, argv):
             bad = {'molecule': j, 'only_baseline': list((ka - kb).elements())[:4], 'only_variant': list((kb - ka).elements())[:4],
                    'sections': sorted(set(k[0] for k in list((ka - kb)) + list((kb - ka))))}
         else:
-            for x, y in zip(ia, ib):
-                if x[:3] != y[:3] or len(x[3]) != len(y[3]) or not all(_param_close(p, q) for p, q in zip(x[3], y[3])):
-                    bad = {'molecule': j, 'baseline': x, 'variant': y, 'sections': sorted(set([x[0], y[0]]))}
-                    break
+            pairs = [(x, y) for x, y in zip(ia, ib)
+                     if x[:3] != y[:3] or len(x[3]) != len(y[3]) or not all(_param_close(p, q) for p, q in zip(x[3], y[3]))]
+            if pairs:
+                x, y = pairs[0]
+                bad = {'molecule': j, 'baseline': x, 'variant': y, 'sections': sorted(set(p[0][0] for p in pairs) | set(p[1][0] for p in pairs)),
+                       'pairs': pairs[:60], 'n': len(pairs)}
         if bad is not None:
             diffs.append(('interactions', bad))
     # coordinates: variant == R * baseline + t
@@ -784,7 +786,8 @@ def compare_topologies(base, var, variant, argv):
         if all(b['dummy'] for b in bad_coords):
             diffs.append(('coords-charge-dummy', {'n': len(bad_coords), 'first': bad_coords[0]}))
         else:
-            diffs.append(('coords', {'n': len(bad_coords), 'first': [b for b in bad_coords if not b['dummy']][0]}))
+            diffs.append(('coords', {'n': len(bad_coords), 'first': [b for b in bad_coords if not b['dummy']][0],
+                                     'bad': [b for b in bad_coords if not b['dummy']][:60]}))
     return diffs
 
 
@@ -851,6 +854,7 @@ class C11Check(PCheck):
         b = (a + 1 + rng.randrange(len(envs) - 1)) % len(envs)
         kinds = ['hash', 'perm', 'hren', 'rigid', 'mem_rigid', 'combo']
         chosen = ['hash'] + rng.sample(kinds[1:], rng.randint(2, 4))
+        incomplete = any(op[0] == 'drop_atoms' for op in task['structure']['ops'])
         if directed:
             chosen = ['hash', 'rigid', 'perm']
         variants = []
@@ -858,7 +862,9 @@ class C11Check(PCheck):
             v = {'kind': kind, 'present': {}}
             if kind in ('perm', 'combo'):
                 v['present']['perm'] = rng.randrange(1 << 30)
-            if kind in ('hren', 'combo'):
+            if kind in ('hren', 'combo') and not incomplete:
+                # with heavy atoms missing, orphaned hydrogens can only be told apart by their names: renaming
+                # them changes the chemistry that is recoverable, not just the presentation (DESIGN.md section 7)
                 v['present']['hren'] = rng.randrange(1 << 30)
             if kind in ('rigid', 'combo'):
                 v['present']['rigid'] = [rng.randrange(24)] + [rng.randrange(-20000, 20000) for _ in range(3)]
@@ -886,6 +892,40 @@ class C11Check(PCheck):
                     yield dict(scenario, variants=scenario['variants'][:i] + [nv] + scenario['variants'][i + 1:])
         for cand in super().simplifications(scenario):
             yield cand
+
+    @staticmethod
+    def surplus_hydrogen_case(diffs, v, task, base_topology):
+        """True when every difference is of the narrow class listed as known finding 'hren-nt-terminal-hydrogen':
+        hydrogens renamed, -nt given, only float parameters of otherwise identical interactions and coordinates of
+        particles in terminal residues differ, by small amounts."""
+        if 'hren' not in v['present'] or '-nt' not in task['argv']:
+            return False
+        for cls, detail in diffs:
+            if cls == 'interactions':
+                if not detail.get('pairs') or detail.get('n', 0) > len(detail['pairs']):
+                    return False
+                for x, y in detail['pairs']:
+                    if x[:3] != y[:3] or len(x[3]) != len(y[3]):
+                        return False
+                    for p, q in zip(x[3], y[3]):
+                        if p == q:
+                            continue
+                        fp, fq = _num(p), _num(q)
+                        if fp is None or fq is None or abs(fp - fq) > 5.0:
+                            return False
+            elif cls == 'coords':
+                if detail['n'] > len(detail['bad']):
+                    return False
+                for item in detail['bad']:
+                    mol = base_topology['molecules'][item['molecule']]
+                    resids = [a[0] for a in mol['atoms']]
+                    if item['resid'] not in (min(resids), max(resids)):
+                        return False
+                    if max(abs(p - q) for p, q in zip(item['expected'], item['actual'])) > 0.6:
+                        return False
+            else:
+                return False
+        return True
 
     def execute(self, scenario):
         task = scenario['task']
@@ -926,17 +966,25 @@ class C11Check(PCheck):
             stats.nontrivial = True
             diffs = compare_topologies(base['topology'], r['topology'], v['present'], task['argv'])
             stats.probes['group_compared'] += 1
+            if diffs and self.surplus_hydrogen_case(diffs, v, task, base['topology']):
+                # known finding: with -nt a protonated terminus has one hydrogen too many; which of the equivalent
+                # hydrogens is discarded is decided by its name, and the bead position shifts slightly with it
+                failure = failure or ('surplus-hydrogen', 'hren-nt-terminal-hydrogen',
+                                      {'kind': v['kind'], 'present': v['present'], 'all': [d[0] for d in diffs],
+                                       'first': {k: val for k, val in diffs[0][1].items() if k not in ('pairs', 'bad')}})
+                continue
             if diffs:
                 cls, detail = diffs[0]
                 sig = cls
                 if cls == 'interactions':
                     sig = 'interactions:' + ','.join(detail.get('sections', []))
-                failure = (cls, sig, {'kind': v['kind'], 'present': v['present'], 'detail': detail,
+                slim = {k: val for k, val in detail.items() if k not in ('pairs', 'bad')}
+                failure = (cls, sig, {'kind': v['kind'], 'present': v['present'], 'detail': slim,
                                       'all': [d[0] for d in diffs]})
                 if cls != 'coords-charge-dummy' or len(diffs) > 1:
                     if cls == 'coords-charge-dummy':
                         cls2, detail2 = diffs[1]
-                        failure = (cls2, cls2, {'kind': v['kind'], 'detail': detail2})
+                        failure = (cls2, cls2, {'kind': v['kind'], 'detail': {k: val for k, val in detail2.items() if k not in ('pairs', 'bad')}})
                     break
         run_digest = core.digest(digests)
         if failure is not None:
